@@ -152,6 +152,17 @@ impl<K, V> BTreeMap<K, V> {
         unimplemented!()
     }
 
+    /// `.keys()`: the keys in order (an eager snapshot of references)
+    #[verifier::external_body]
+    pub fn keys<'a>(&'a self) -> (r: Vec<&'a K>)
+        ensures
+            r@.len() == vx_entries(self@).len(),
+            forall|i: int| 0 <= i < r@.len() ==> *(#[trigger] r@[i]) == vx_entries(self@)[i].0,
+            entries_of(vx_entries(self@), self@),
+    {
+        unimplemented!()
+    }
+
     #[verifier::external_body]
     pub fn into_iter(self) -> (r: IntoIter<K, V>)
         ensures
